@@ -51,7 +51,7 @@ def gen_case(r, prof, long=False):
     for w in writers:
         lines.append(f"pub {w} {r.choice([0, 1, 1, 5, 10, -1])}")
     ni = r.range(*prof.ninst)
-    insts = sorted(set(r.choice([1, 2, 5, 6, 7, 255, 256, 300, 511]) for _ in range(ni)))
+    insts = sorted(set(r.choice([0, 1, 2, 5, 6, 7, 255, 256, 300, 511]) for _ in range(ni)))  # 0 = the all-zero handle (key 0 of a one-byte key)
     nops = r.range(*prof.nops) * (4 if long else 1)
     rts = 1000
     clock = 10
